@@ -18,7 +18,7 @@ import threading
 
 from .core import HarnessError
 
-WAIT = 20.0  # seconds before a baton wait is declared a harness hang
+WAIT = 180.0  # seconds (wall) before a baton wait is declared a harness hang; generous because CI machines are loaded
 
 
 def _baton():
